@@ -27,6 +27,7 @@ type c16Src struct {
 	with   bool
 	chunks []int
 	pos    int
+	failed bool
 }
 
 func (s *c16Src) Read(p []byte) (int, error) {
@@ -36,8 +37,12 @@ func (s *c16Src) Read(p []byte) (int, error) {
 		c = s.chunks[0]
 		s.chunks = s.chunks[1:]
 	}
+	if s.failed { // read again after the source reported its error: a reader that latched it never gets here
+		return 0, c04ErrReadAfterError
+	}
 	remaining := len(s.data) - s.pos
 	if remaining == 0 {
+		s.failed = s.final != nil
 		return 0, s.final
 	}
 	m := c
@@ -50,6 +55,7 @@ func (s *c16Src) Read(p []byte) (int, error) {
 	copy(p, s.data[s.pos:s.pos+m])
 	s.pos += m
 	if s.with && m == remaining && m != 0 {
+		s.failed = s.final != nil
 		return m, s.final
 	}
 	return m, nil
